@@ -193,6 +193,8 @@ def validate_models(H, cfgs, L, report):
                 report.append(dict(label=o2[len("violation:"):], key="fixture: " + o2[len("violation:"):], cfg=cfg,
                                    model={k: E._js(v) for k, v in values.items()}, detail="violated by the real code on a concrete fixture input", confirmed=True, notes=[]))
                 continue
+            if getattr(H, "VALIDATE_OUTCOME", True) is False and o1.startswith("violation:") and o2.startswith("violation:"):
+                o1 = o2
             if o1 != o2 or len(a) != len(b) or not all(x[0] == y[0] and same(x[1], y[1]) for x, y in zip(a, b)):
                 first = next((i for i, (x, y) in enumerate(zip(a, b)) if x[0] != y[0] or not same(x[1], y[1])), None)
                 return n, "model validation mismatch cfg=%s values=%s: shim=%s real=%s first_diff=%s" % (
